@@ -72,7 +72,7 @@ fn t35_names() -> Vec<String> {
         match ItuTT35::read(&msg) { Ok((c, _)) => format!("{:?}", c), Err(_) => "?".to_string() } }).collect()
 }
 
-pub struct Runner { pub ctx: Context, pub sei_types: std::rc::Rc<SeiTypes>, pub t35_names: std::rc::Rc<Vec<String>> }
+pub struct Runner { scratch: std::cell::OnceCell<Context>, pub ctx: Context, pub sei_types: std::rc::Rc<SeiTypes>, pub t35_names: std::rc::Rc<Vec<String>> }
 
 fn render_avcc_iter<'a>(it: &mut dyn Iterator<Item = Result<&'a [u8], h264_reader::avcc::ParamSetError>>, limit: usize) -> String {
     let mut v = vec![];
@@ -93,7 +93,7 @@ fn render_avcc_iter<'a>(it: &mut dyn Iterator<Item = Result<&'a [u8], h264_reade
 fn nums(t: &str) -> Vec<String> { t.split(|c: char| !c.is_ascii_digit()).filter(|s| !s.is_empty()).map(|s| s.to_string()).collect() }
 
 impl Runner {
-    pub fn new() -> Runner { Runner { ctx: Context::new(), sei_types: std::rc::Rc::new(SeiTypes::new()), t35_names: std::rc::Rc::new(t35_names()) } }
+    pub fn new() -> Runner { Runner { scratch: Default::default(), ctx: Context::new(), sei_types: std::rc::Rc::new(SeiTypes::new()), t35_names: std::rc::Rc::new(t35_names()) } }
 
     pub fn run_line(&mut self, line: &str) -> String {
         let r = catch_unwind(AssertUnwindSafe(|| self.run_inner(line)));
@@ -113,8 +113,7 @@ impl Runner {
             "avcc" => self.avcc(&unhex(toks.get(1).copied().unwrap_or(""))),
             "reset" => { self.ctx = Context::new(); "ok".into() }
             "full" => "ok".into(),   // announces the complete NAL of the prefix cases that follow (used by the C17 oracle)
-            "dump" => format!("sps=[{}] pps=[{}]", self.ctx.sps().map(|s| format!("{}:{}", s.seq_parameter_set_id.id(), s.level_idc)).collect::<Vec<_>>().join(","),
-                self.ctx.pps().map(|p| format!("{}:{}:{}", p.pic_parameter_set_id.id(), p.seq_parameter_set_id.id(), p.num_ref_idx_l0_default_active_minus1)).collect::<Vec<_>>().join(",")),
+            "dump" => format!("sps=[{}] pps=[{}]", self.ctx.sps().map(|s| format!("{:?}", s)).collect::<Vec<_>>().join(";"), self.ctx.pps().map(|p| format!("{:?}", p)).collect::<Vec<_>>().join(";")),
             "sps" => self.sps(&unhex(toks.get(1).copied().unwrap_or(""))),
             "pps" => self.pps(&unhex(toks.get(1).copied().unwrap_or(""))),
             "slice" => self.slice(unhex(toks[1])[0], &unhex(toks.get(2).copied().unwrap_or(""))),
@@ -358,6 +357,20 @@ impl Runner {
             t => format!("other:{}", t),
         }
     }
+    /// the same dispatch on the NAL's RBSP un-escaped by the reference routine of this harness and read from one plain buffer
+    /// (no `ByteReader` involved); `None` when the NAL contains a forbidden sequence
+    pub fn nal_plain(&mut self, nal: &[u8]) -> Option<String> {
+        if nal.is_empty() { return None; }
+        let hdr = match NalHeader::new(nal[0]) { Ok(h) => h, Err(_) => return Some("hdr:err".into()) };
+        let (rbsp, valid) = unescape(&nal[1..]); if !valid { return None; }
+        Some(match hdr.nal_unit_type().id() {
+            7 => match SeqParameterSet::from_bits(BitReader::new(&rbsp[..])) { Ok(s) => { let t = format!("sps:Ok({:?})", s); self.ctx.put_seq_param_set(s); t } Err(e) => format!("sps:{}", err_class(&e)) },
+            8 => match PicParameterSet::from_bits(&self.ctx, BitReader::new(&rbsp[..])) { Ok(p) => { let t = format!("pps:Ok({:?})", p); self.ctx.put_pic_param_set(p); t } Err(e) => format!("pps:{}", err_class(&e)) },
+            1 | 5 => format!("slice:{}", self.slice_on(hdr, BitReader::new(&rbsp[..]))),
+            6 => format!("sei:{}", self.sei_messages(&rbsp[..]).join(" ")),
+            t => format!("other:{}", t),
+        })
+    }
     fn nal(&mut self, chunks: &str, complete: bool) -> String {
         let chunks = chunks_of(chunks);
         let refs: Vec<&[u8]> = chunks.iter().map(|c| &c[..]).collect();
@@ -382,6 +395,12 @@ impl Runner {
         }
     }
 
+    fn scratch_ctx(&self) -> &Context {
+        self.scratch.get_or_init(|| { let mut c = Context::new();
+            for id in 0..32u64 { let mut w = W::default(); w.u(8, 66).u(8, 0).u(8, 30).ue(id).ue(0).ue(2).ue(1).b(false).ue(3).ue(3).b(true).b(false).b(false).b(false); let d = w.trail();
+                if let Ok(s) = SeqParameterSet::from_bits(BitReader::new(&d[..])) { c.put_seq_param_set(s); } }
+            c })
+    }
     /// ctx ops: `s<id>:<tag>` put an SPS with that id (tag = level_idc), `p<id>:<spsid>:<tag>` put a PPS (tag = num_ref_idx_l0_default_minus1),
     /// `gs<id>` / `gp<id>` lookups, `is` / `ip` iterations
     fn ctxops(&mut self, ops: &[&str]) -> String {
@@ -401,7 +420,10 @@ impl Runner {
                 let v: Vec<u64> = x.split(':').map(|y| y.parse().unwrap()).collect();
                 let mut w = W::default(); w.ue(v[0]).ue(v[1]).b(false).b(false).ue(0).ue(v[2]).ue(0).b(false).u(2, 0).se(0).se(0).se(0).b(false).b(false).b(false);
                 let d = w.trail();
-                out.push(match PicParameterSet::from_bits(&ctx, BitReader::new(&d[..])) { Ok(p) => { ctx.put_pic_param_set(p); "ok".into() } Err(_) => "rej".into() });
+                // the PPS value is built by parsing against a scratch context that holds an SPS under every id: `put_pic_param_set` is a
+                // plain store and must not depend on what the SPS store of *this* context holds
+                let scratch = self.scratch_ctx();
+                out.push(match PicParameterSet::from_bits(scratch, BitReader::new(&d[..])) { Ok(p) => { ctx.put_pic_param_set(p); "ok".into() } Err(_) => "rej".into() });
             }
             else { out.push("bad".into()); }
         }
@@ -443,7 +465,7 @@ impl Runner {
     /// fails; other NALs are buffered until complete. Output: one item per parse: `<bytes shown>=<result>`
     fn stream(&mut self, ops: &[&str]) -> String {
         let policy = ops[0].to_string(); let ops = &ops[1..];
-        let local = std::rc::Rc::new(std::cell::RefCell::new(Runner { ctx: Context::new(), sei_types: self.sei_types.clone(), t35_names: self.t35_names.clone() }));
+        let local = std::rc::Rc::new(std::cell::RefCell::new(Runner { scratch: Default::default(), ctx: Context::new(), sei_types: self.sei_types.clone(), t35_names: self.t35_names.clone() }));
         let out: std::rc::Rc<std::cell::RefCell<Vec<String>>> = Default::default();
         let o2 = out.clone(); let l2 = local.clone();
         {
